@@ -27,8 +27,9 @@ def apply_rules(body, rules):
     log = []
     for rx, rep, cnt in rules:
         body, n = re.subn(rx, rep, body, flags=re.M)
-        if n != cnt:
-            raise RuleError("rule %r matched %d times, expected %d" % (rx, n, cnt))
+        lo, hi = cnt if isinstance(cnt, tuple) else (cnt, cnt)
+        if not (lo <= n <= hi):
+            raise RuleError("rule %r matched %d times, expected %s" % (rx, n, cnt))
         log.append((rx, n))
     return body, log
 
@@ -44,9 +45,9 @@ def extract_bis():
         (r"auto (\w+) = std::ranges::cend\(r\);", r"const elem_t *\1 = r + n;", 1),
         (r"std::ranges::empty\(r\)", "(n == 0)", 1),
         (r"\*next\((\w+)\)", r"*(\1 + 1)", 1),
-        # std::weak_ordering / partial_ordering results compared with 0 (on NaN-free data)
-        (r"wo\(([^,]+), t\) > 0", r"(\1 > t)", 2),
-        (r"wo\(([^,]+), t\) <= 0", r"(\1 <= t)", 2),
+        # three-way comparison (std::weak_ordering / partial_ordering on NaN-free data) as an int: sign of (a - t)
+        (r"const auto (\w+)\s*= wo\(", r"const int \1 = wo(", (0, 8)),
+        (r"wo\(([^,]+), t\)", r"cmp3(\1, t)", (1, 16)),
         (r"auto pivot = (\w+);", r"const elem_t *pivot = \1;", 1),
         (r"if constexpr \(std::is_convertible_v<Rv, double> && std::is_convertible_v<T, double>\) \{", "{", 1),
         (r"\(static_cast<double>\(([^()]+)\) - static_cast<double>\(([^()]+)\)\) / static_cast<double>\((\*\([^()]+\)|[^()\s]+) - ([^()]+)\);",
@@ -56,9 +57,118 @@ def extract_bis():
         (r"^(  while \([^\n]*\)) \{", r"\1\n  LOOP_CONTRACT\n  {", 1),
     ]
     body, log = apply_rules(body, rules)
-    if re.search(r"std::|auto|static_cast|wo\(", body):
+    if re.search(r"std::|auto|static_cast|\bwo\(", body):
         raise RuleError("untranslated C++ remains in extracted binary_interval_search:\n" + body)
     return body, log
+
+
+def drop_blocks(body, start_rx, expected):
+    """remove every `if (...) { ... }` block whose header matches start_rx (brace matching); must fire `expected` times"""
+    n = 0
+    while True:
+        m = re.search(start_rx, body)
+        if not m:
+            break
+        i = body.index("{", m.end() - 1) if body[m.end() - 1] != "{" else m.end() - 1
+        depth, j = 0, i
+        while True:
+            if body[j] == "{":
+                depth += 1
+            elif body[j] == "}":
+                depth -= 1
+                if depth == 0:
+                    break
+            j += 1
+        body = body[:m.start()] + body[j + 1:]
+        n += 1
+    if n != expected:
+        raise RuleError("drop rule %r fired %d times, expected %d" % (start_rx, n, expected))
+    return body
+
+
+def extract_minimize():
+    src = open(os.path.join(REPO, "include/smooth/optim.hpp")).read()
+    body = slice_between(src, r"^SolveResult minimize\(auto && f, auto && x, auto && cb, const MinimizeOptions & opts = \{\}\)\n  requires\(!std::is_same_v<std::decay_t<decltype\(cb\)>, MinimizeOptions>\)\n\{\n",
+                         r"^\}\n")
+    body = drop_blocks(body, r"if \(opts\.verbose[^\n]*\{", 3)
+    rules = [
+        (r"std::optional<SolveResult::Status> status = \{\};", "int status = ST_NONE; const double cost0 = st->cost_n;", 1),
+        (r"^  const auto t0 [^\n]*\n", "", 1),
+        (r"auto iter\s+= 0u;", "unsigned iter = 0u;", 1),
+        (r"std::apply\(cb, x\);", "st->ncb++;", 2),
+        (r"for \(; iter < opts\.max_iter && !status\.has_value\(\); \+\+iter\) \{", "for (; iter < max_iter && !(status != ST_NONE); ++iter)\n  LOOP_CONTRACT\n  {", 1),
+        (r"const auto \[r, J\] = diff::dr<1, D>\(f, x\);", "stub_eval(st);", 1),
+        (r"^    using JType [^\n]*\n", "", 1),
+        (r"^    static constexpr auto N = JType::ColsAtCompileTime;\n", "", 1),
+        (r"^    static constexpr auto clamper [^\n]*\n", "", 1),
+        (r"^    const Eigen::Vector<double, N> d = colwise_norm\(J\)\.unaryExpr\(clamper\);\n", "", 1),
+        (r"const double Delta\s+= opts\.strat->get_delta\(\);", "const double Delta = strat_get_delta(); (void)Delta;", 1),
+        (r"const auto \[dx, lambda\] = solve_trust_region\(J, d, r, Delta\);", "stub_solve(st);", 1),
+        (r"const auto xp\s+= wrt_rplus\(x, dx\);", "stub_rplus(st);", 1),
+        (r"const double r_n\s+= r\.stableNorm\(\);", "const double r_n = st->r_n;", 1),
+        (r"1\. - fpow<2>\(std::apply\(f, xp\)\.stableNorm\(\) / r_n\)", "1. - stub_ratio_sq(st->fxp_n, r_n)", 1),
+        (r"1\. - fpow<2>\(\(r \+ J \* dx\)\.stableNorm\(\) / r_n\)", "1. - stub_ratio_sq(st->lin_n, r_n)", 1),
+        (r"const double rho\s+= actu_red / pred_red;", "const double rho = stub_fdiv(actu_red, pred_red);", 1),
+        (r"opts\.strat->step_and_update\(rho\)", "strat_step_and_update(rho)", 1),
+        (r"x = xp;", "ACCEPT_STEP;", 1),
+        (r"std::abs\(actu_red\) < opts\.ftol && pred_red < opts\.ftol", "fabs(actu_red) < ftol && pred_red < ftol", 1),
+        (r"status = SolveResult::Status::(\w+);", r"status = ST_\1;", 2),
+        (r"d\.cwiseProduct\(dx\)\.stableNorm\(\) < opts\.ptol \* static_cast<double>\(dx\.size\(\)\)", "st->ddx_n < ptol * st->dxsize", 1),
+        (r"return \{\n\s+\.status = status\.value_or\(SolveResult::Status::MaxIters\),\n\s+\.iter\s+= iter,\n\s+\.time[^\n]*\n\s+\};",
+         "*out_iter = iter;\n  return (status != ST_NONE) ? status : ST_MaxIters;", 1),
+    ]
+    body, log = apply_rules(body, rules)
+    if re.search(r"std::|auto |opts\.|Eigen|fpow|SolveResult", body):
+        raise RuleError("untranslated C++ remains in extracted minimize:\n" + body)
+    return body, log
+
+
+def extract_strategy(cls):
+    src = open(os.path.join(REPO, "include/smooth/optim/tr_strategy.hpp")).read()
+    cbody = slice_between(src, r"^class %s : public TrustRegionStrategy\n\{\n" % cls, r"^\};\n")
+    body = slice_between(cbody, r"inline bool step_and_update\(const double rho\) override\n  \{\n", r"^  \}\n")
+    rules = [
+        (r"(\w+) /= ([^;]+);", r"\1 = stub_fdiv(\1, \2);", {"CeresStrategy": 2, "DisneyStrategy": 1}[cls]),
+        (r"std::max\(", "fmax(", {"CeresStrategy": 1, "DisneyStrategy": 0}[cls]),
+    ]
+    body, log = apply_rules(body, rules)
+    members = re.findall(r"double (m_\w+)\{([^}]+)\};", cbody)
+    if not members:
+        raise RuleError("no members found in " + cls)
+    return body, members, log
+
+
+def minimize_c_file():
+    body, log = extract_minimize()
+    src = ('#include "minimize_contract.h"\n'
+           '#define ACCEPT_STEP do { __CPROVER_assert(st->fxp_n <= st->cost_n, "C09: an accepted step does not increase the cost |f|"); st->cost_n = st->fxp_n; } while (0)\n'
+           '#define LOOP_CONTRACT \\\n'
+           '  __CPROVER_assigns(iter, status, st->cost_n, st->r_n, st->lin_n, st->fxp_n, st->ddx_n, st->dxsize, st->dx_zero, st->ncb) \\\n'
+           '  __CPROVER_loop_invariant(iter <= max_iter && st->cost_n >= 0.0 && (status == ST_NONE || status == ST_Ftol || status == ST_Ptol)) \\\n'
+           '  __CPROVER_loop_invariant(st->ncb >= 1 && st->ncb - 1 <= iter && st->cost_n <= cost0) \\\n'
+           '  __CPROVER_decreases((status == ST_NONE ? 1u : 0u) + (max_iter - iter))\n\n'
+           'int minimize_skel(struct state *st, unsigned max_iter, double ftol, double ptol, unsigned *out_iter)\n'
+           '__CPROVER_requires(__CPROVER_is_fresh(st, sizeof(*st)) && __CPROVER_is_fresh(out_iter, sizeof(*out_iter)))\n'
+           '__CPROVER_requires(st->cost_n >= 0.0 && st->ncb == 0 && max_iter < 4000000000u)\n'
+           '__CPROVER_ensures(*out_iter <= max_iter)\n'
+           '__CPROVER_ensures((__CPROVER_return_value == ST_MaxIters) ==> (*out_iter == max_iter))\n'
+           '__CPROVER_ensures(__CPROVER_return_value == ST_MaxIters || __CPROVER_return_value == ST_Ftol || __CPROVER_return_value == ST_Ptol)\n'
+           '__CPROVER_ensures(st->cost_n <= __CPROVER_old(st->cost_n))\n'
+           '__CPROVER_assigns(*st, *out_iter)\n{\n' + body + '\n}\n\n'
+           'void h_min(void) { struct state *st; unsigned mi; double ft, pt; unsigned *oi; minimize_skel(st, mi, ft, pt, oi); }\n')
+    return src, log
+
+
+def strategy_c_file(cls):
+    body, members, log = extract_strategy(cls)
+    decl = "".join("static double %s = %s;\n" % (n, v) for n, v in members)
+    src = ('#include <math.h>\n#include <stdbool.h>\n'
+           'double stub_fdiv(double a, double b)\n__CPROVER_requires(1)\n__CPROVER_ensures(1)\n__CPROVER_assigns()\n;\n' + decl +
+           'bool step_and_update(const double rho)\n'
+           '__CPROVER_ensures(__CPROVER_return_value ==> (rho > 0.0))\n'
+           '__CPROVER_assigns(%s)\n{\n' % ", ".join(n for n, _ in members) + body + '\n}\n'
+           'void h_strat(void) { double rho; step_and_update(rho); }\n')
+    return src, log
 
 
 def bis_c_file():
